@@ -132,14 +132,16 @@ func unitsReadbackQ(u []uint16, f flags) string {
 	return strconv.Itoa(len(u)) + "[" + strings.Join(parts, ",") + "]"
 }
 
-func goSide(u []uint16) string {
-	// (identical with or without fLone: the export itself replaces lone surrogates)
+func goSide(u []uint16, f flags) string {
+	if f&fLone == 0 {
+		return "s:" + ox.Units(u)
+	}
 	// the host logger exports through otto's Go string: lone surrogates -> U+FFFD
 	return "s:" + ox.Units(units(goString(u)))
 }
 
 func showStringQ(u []uint16, f flags) string {
-	return evStr("s") + "," + evStr(unitsReadbackQ(u, f)) + "," + goSide(u)
+	return evStr("s") + "," + evStr(unitsReadbackQ(u, f)) + "," + goSide(u, f)
 }
 
 func showArrayQ(a [][]uint16, f flags) []string {
@@ -149,7 +151,7 @@ func showArrayQ(a [][]uint16, f flags) []string {
 	}
 	ev := []string{evStr("a") + ",n:" + strconv.Itoa(len(a)) + "," + evStr(strings.Join(parts, "|"))}
 	for _, e := range a {
-		ev = append(ev, evStr("e")+","+goSide(e))
+		ev = append(ev, evStr("e")+","+goSide(e, f))
 	}
 	return ev
 }
@@ -214,7 +216,7 @@ func model(in *Input, f flags) (out modelOut, ok bool) {
 			return done(showStringQ(s, f))
 		}
 		rb := unitsReadbackQ(s, f)
-		return done(strings.Join([]string{evStr("S"), evStr("object"), evStr("string"), evStr(rb), evStr(rb), "n:" + strconv.Itoa(len(s)), goSide(s)}, ","))
+		return done(strings.Join([]string{evStr("S"), evStr("object"), evStr("string"), evStr(rb), evStr(rb), "n:" + strconv.Itoa(len(s)), goSide(s, f)}, ","))
 	case "index":
 		return modelIndex(in, &this, args, f)
 	case "props":
